@@ -6,6 +6,7 @@ import (
 	"bytes"
 	"encoding/json"
 	"fmt"
+	"os"
 	"time"
 
 	"verif/harness/internal/tlcrun"
@@ -172,7 +173,15 @@ func ValidateChunks(sp Spec, prelude []any, traces []Trace, maxRejects, chunk, p
 	for i := range parts {
 		go func(i int) {
 			sem <- struct{}{}
+			t1 := time.Now()
 			o, err := Validate(sp, prelude, parts[i], maxRejects)
+			if os.Getenv("VERIF_DEBUG") != "" {
+				n := 0
+				for _, t := range parts[i] {
+					n += len(t.Lines)
+				}
+				fmt.Fprintf(os.Stderr, "chunk %d (%s.., %d lines): %.1fs err=%v\n", i, parts[i][0].Name, n, time.Since(t1).Seconds(), err)
+			}
 			results[i] = res{o, err}
 			<-sem
 			done <- i
